@@ -379,6 +379,12 @@ def work(task):
             for fn in FUNCS:
                 jobs.append(('(a|aa)+$', subs[0], xa, fn))
                 jobs.append(('(?:a|a|a|a)+$', 'a14!', xa, fn))
+        # every letter as a flag (alone and after a valid one): an unknown or new flag may not open a path without timeout
+        for letter in 'abcdefghijklmnopqrstuvwxyzABCDEFGHIJKLMNOPQRSTUVWXYZ':
+            for fl in (letter, 'i' + letter):
+                for fn in FUNCS:
+                    jobs.append(('(a|aa)+', 'a30b', fl, fn))
+                    jobs.append(('(a|aa)+$', 'a30b', fl, fn))
         for sname, _ in ODD_SUBJECTS:
             for pat in ('x', 'a+b', r'\w+\d', r'(\s*)*$'):
                 for fl in ('', 'ims'):
